@@ -12,6 +12,7 @@ import (
 	"errors"
 	"io"
 	"strconv"
+	"time"
 )
 
 // Fault kinds: "" / "none" = no fault, "gen" = an error of the driver's own, the rest are the
@@ -102,9 +103,45 @@ type TxCase struct {
 	Rollback string     `json:"rollback"`
 	Stmts    []Stmt     `json:"stmts"`
 	Final    Final      `json:"final"`
-	API      string     `json:"api"`  // transact | transactctx | cached | cachedctx
-	Log      int        `json:"log"`  // 0 all logs on | 1 DisableStmtLog | 2 DisableLog
-	Slow     bool       `json:"slow"` // every statement counts as slow
+	API      string     `json:"api"`   // transact | transactctx | cached | cachedctx
+	Log      int        `json:"log"`   // 0 all logs on | 1 DisableStmtLog | 2 DisableLog
+	Slow     bool       `json:"slow"`  // every statement counts as slow
+	Ctx      string     `json:"cx"`    // ctx given to TransactCtx: "" / live | cancel_after | expire_after | cancelled | expired
+	Bound    bool       `json:"bound"` // the body issues its statements with that ctx (XxxCtx methods)
+}
+
+// MakeCtx builds the context of a case for the XxxCtx APIs: already finished ("cancelled",
+// "expired"), or live with After finishing it right after the body's last statement
+// ("cancel_after", "expire_after": the latter waits for an (immediate) deadline).
+func MakeCtx(c TxCase) (ctx context.Context, after func(), done func()) {
+	switch c.Ctx {
+	case "cancelled":
+		ctx, cancel := context.WithCancel(context.Background())
+		cancel()
+		return ctx, func() {}, func() {}
+	case "expired":
+		ctx, cancel := context.WithDeadline(context.Background(), time.Unix(1, 0))
+		<-ctx.Done()
+		return ctx, func() {}, cancel
+	case "cancel_after":
+		ctx, cancel := context.WithCancel(context.Background())
+		return ctx, cancel, cancel
+	case "expire_after":
+		// a deadline context whose timer is replaced by an explicit, immediate expiry
+		ctx, cancel := context.WithCancelCause(context.Background())
+		return deadlineCtx{ctx}, func() { cancel(context.DeadlineExceeded) }, func() { cancel(nil) }
+	}
+	return context.Background(), func() {}, func() {}
+}
+
+// deadlineCtx reports context.DeadlineExceeded once its parent was cancelled with that cause.
+type deadlineCtx struct{ context.Context }
+
+func (d deadlineCtx) Err() error {
+	if d.Context.Err() != nil && context.Cause(d.Context) == context.DeadlineExceeded {
+		return context.DeadlineExceeded
+	}
+	return d.Context.Err()
 }
 
 // Rec is the recording driver state of one case.
@@ -237,6 +274,7 @@ type Ops struct {
 	Exec     func(q string) error // session.Exec
 	PrepExec func(q string) error // session.Prepare + stmt.Exec
 	Query    func(q string) error // session.QueryRow into an int64
+	After    func()               // called once after the last statement, before the body ends
 }
 
 // RunBody interprets the body script once: Runs counts entries, Seen records for every issued
@@ -269,6 +307,9 @@ func RunBody(c TxCase, r *Rec, ops Ops, o *BodyObs) error {
 				panic("P:" + strconv.Itoa(st.P))
 			}
 		}
+	}
+	if ops.After != nil {
+		ops.After()
 	}
 	switch c.Final.K {
 	case "err":
